@@ -232,7 +232,9 @@ func stress(words []string) string {
 			for seq := 1; seq <= per; seq++ {
 				size := (t*7 + seq*13) % 48
 				if big > 0 && seq%big == 0 {
-					size = 3000 + t
+					// large payloads of several magnitudes (an encoder may treat them differently from small ones)
+					bigs := []int{3000, 4096, 5000, 9000, 20000, 45000}
+					size = bigs[(seq/big)%len(bigs)] + t
 				}
 				publish(w, t, seq, size)
 				if (seq+t)%5 == 0 {
